@@ -42,6 +42,17 @@ func (bs *Bindings) Bind(ctx *Context, pat interface{}) interface{} {
 	case map[string]interface{}:
 		bound := make(map[string]interface{})
 		for k, x := range v {
+			if IsVariable(k) {
+				// A bound variable stands for its value in
+				// property position, too.  Left in place, the
+				// match binds it again (to any property), and
+				// that binding then replaces the given one.
+				if binding, found := (*bs)[k]; found {
+					if name, is := binding.(string); is {
+						k = name
+					}
+				}
+			}
 			bound[k] = bs.Bind(ctx, x)
 		}
 		return bound
@@ -56,6 +67,35 @@ func (bs *Bindings) Bind(ctx *Context, pat interface{}) interface{} {
 	default:
 		return pat
 	}
+}
+
+// bindsPropertyToNonString reports whether the pattern has a variable
+// in property position that these bindings bind to something other
+// than a string.  Such a pattern can't match anything (and Bind can't
+// substitute the variable).
+func (bs *Bindings) bindsPropertyToNonString(pat interface{}) bool {
+	switch v := pat.(type) {
+	case map[string]interface{}:
+		for k, x := range v {
+			if IsVariable(k) {
+				if binding, found := (*bs)[k]; found {
+					if _, is := binding.(string); !is {
+						return true
+					}
+				}
+			}
+			if bs.bindsPropertyToNonString(x) {
+				return true
+			}
+		}
+	case []interface{}:
+		for _, x := range v {
+			if bs.bindsPropertyToNonString(x) {
+				return true
+			}
+		}
+	}
+	return false
 }
 
 type QueryResult struct {
@@ -497,6 +537,10 @@ func (p PatternQuery) Exec(ctx *Context, loc *Location, qc QueryContext, qr Quer
 	acc := QueryResult{make([]Bindings, 0, 0), qr.Checked, qr.Elapsed}
 	// ToDo: Add to elapsed in QueryResult
 	for _, bs := range qr.Bss {
+		if bs.bindsPropertyToNonString(p.Pattern) {
+			// No fact has a property named by a number (say).
+			continue
+		}
 		bound := bs.Bind(ctx, interface{}(p.Pattern))
 
 		// qc.locations are from the triggering event
